@@ -155,14 +155,60 @@ def gen_cancel_template(rng):
     return {"n": n, "arcs": arcs, "s": 0, "t": 5, "labels": "int", "all_keys": False}
 
 
+def gen_repush_template(rng):
+    """three augmentations on one arc a->b: a shortest path saturates it, a longer path cancels that flow through the residual
+    arc b->a, and the only remaining augmenting path needs a->b a second time.  Path lengths are padded with extra nodes so that
+    breadth-first search finds them in this order; capacities and extra arcs are randomised around the pattern."""
+    names = ["s", "a", "b", "t"]
+    arcs = []
+
+    def chain(u, v, extra, cap):
+        prev = u
+        for _ in range(extra):
+            w = "n%d" % len(names)
+            names.append(w)
+            arcs.append([prev, w, cap])
+            prev = w
+        arcs.append([prev, v, cap])
+    e1, e2 = rng.randint(0, 1), rng.randint(0, 1)
+    arcs += [["s", "a", 1], ["a", "b", 1], ["b", "t", 1]]               # route 1: s-a-b-t
+    chain("s", "c", 0, 2); names.append("c")                            # route 2: s-c-b ~ a-e-t
+    chain("c", "b", e1, 1)
+    chain("a", "e", 0, 1); names.append("e")
+    chain("e", "t", e2, 2)
+    chain("c", "a", 1 + e1 + rng.randint(0, 1), 1)                      # route 3: s-c-..-a -> b -..- e-t
+    chain("b", "e", 1 + e2 + rng.randint(0, 1), 1)
+    for _ in range(rng.randint(0, 2)):                                  # noise
+        u, v = rng.sample(names, 2)
+        if v != "s" and u != "t" and not any(x[0] == u and x[1] == v for x in arcs):
+            arcs.append([u, v, 1])
+    ids = {nm: i for i, nm in enumerate(["s"] + rng.sample([n for n in names if n not in ("s", "t")], len(names) - 2) + ["t"])}
+    items = [[ids[u], ids[v], c + (1 if rng.random() < 0.1 else 0), 0] for u, v, c in arcs]
+    rng.shuffle(items)
+    return {"n": len(names), "arcs": items, "s": ids["s"], "t": ids["t"], "labels": rng.choice(["int", "str"]), "all_keys": False}
+
+
+def _repush(aug):
+    """coverage criterion: some augmentation pushes forward flow on an arc whose flow an earlier augmentation had cancelled"""
+    cancelled = set()
+    for e in aug:
+        for u, v in e.get("push_hops", []):
+            if (u, v) in cancelled:
+                return True
+        for u, v in e.get("cancel_hops", []):
+            cancelled.add((v, u))         # hop u->v cancelled flow on the real arc v->u
+    return False
+
+
 def run_maxflow_bulk(case):
     """Coverage-directed generation for max_flow: keep every execution in which an augmentation cancels only part of the flow
-    on the opposite arc (rare), plus a sample."""
+    on the opposite arc, or pushes again on an arc whose flow had been cancelled (both rare), plus a sample."""
     from solvor import _verif
     rng = random.Random(case["seed"])
-    kept, cov = [], {"instances": 0, "partial_cancellation": 0, "full_cancellation": 0, "sampled": 0}
+    kept, cov = [], {"instances": 0, "partial_cancellation": 0, "full_cancellation": 0, "push_again_after_cancellation": 0, "sampled": 0}
     for _ in range(case["count"]):
-        c = gen_cancel_template(rng) if rng.random() < 0.25 else gen_antiparallel(rng)
+        r = rng.random()
+        c = gen_cancel_template(rng) if r < 0.2 else (gen_repush_template(rng) if r < 0.4 else gen_antiparallel(rng))
         if not c["arcs"]:
             continue
         _verif.start()
@@ -171,12 +217,14 @@ def run_maxflow_bulk(case):
         aug = [e for e in events if e.get("e") == "maxflow_augment"]
         part = any(e["partial_cancel"] for e in aug)
         full = any(e["full_cancel"] for e in aug)
+        again = _repush(aug)
         cov["instances"] += 1
         cov["partial_cancellation"] += part
         cov["full_cancellation"] += full
-        if part or (full and rng.random() < 0.05) or rng.random() < 0.005:
+        cov["push_again_after_cancellation"] += again
+        if part or again or (full and rng.random() < 0.05) or rng.random() < 0.005:
             cov["sampled"] += 1
-            tr["coverage"] = "PartialCancellation" if part else "sample"
+            tr["coverage"] = "PartialCancellation" if part else ("PushAgainAfterCancellation" if again else "sample")
             kept.append(tr)
     return {"kept": kept, "cov": cov}
 
